@@ -169,3 +169,4 @@ LEVEL_TEXT = ('Exploration: every generated (form, type, M, K, N) instantiation 
               'unwritten elements are detected by painting, stray writes by canaries and ASan. A shape outside the generated family is not judged.')
 LEVEL_NOTE = 'trusted: the naive reference model, g++/clang++ code generation, this host executing all seven ISA levels; exact regime relies on small-integer operands being exactly representable'
 DESIGN_REF = 'DESIGN.md section 8 C01'
+THOROUGH_NATIVE = True      # this module's own thorough product (covering sample of 320 pairs) was soaked to silence
